@@ -1,6 +1,7 @@
 //! Per-property check specifications: which engine, which configurations, how many runs per tier.
 use crate::common::{run_check, CheckSpec, Config};
 use crate::e2_dag::DagEngine;
+use crate::e1::BuildEngine;
 
 pub fn check(prop: &str, tier: &str) -> i32 {
   match prop {
@@ -16,10 +17,51 @@ pub fn check(prop: &str, tier: &str) -> i32 {
       assumptions: vec!["reference graph (ordered adjacency lists + DFS) is correct", "hash order is controlled through the guarded seeded-hasher seam"],
       configs: vec![Config { name: "short", quick: 60_000, thorough: 1_500_000 }, Config { name: "long", quick: 20_000, thorough: 800_000 }],
     }, tier),
+    "C01" => run_check(&BuildEngine, &CheckSpec {
+      prop: "C01",
+      rule: "class-W programs x initial worlds x histories of external changes and top-down sessions; non-trivial = some session both reused and re-executed tasks",
+      assumptions: vec!["from-scratch model (Clean) is correct"],
+      configs: vec![Config { name: "td", quick: 100_000, thorough: 4_000_000 }],
+    }, tier),
+    "C02" => run_check(&BuildEngine, &CheckSpec {
+      prop: "C02",
+      rule: "as C01; plus exact-checker programs for the minimality clause",
+      assumptions: vec!["from-scratch model (Clean) is correct"],
+      configs: vec![Config { name: "td", quick: 60_000, thorough: 2_000_000 }, Config { name: "td-exact", quick: 60_000, thorough: 2_000_000 }],
+    }, tier),
+    "C03" => run_check(&BuildEngine, &CheckSpec {
+      prop: "C03",
+      rule: "bottom-up mixes",
+      assumptions: vec!["from-scratch model (Clean) is correct"],
+      configs: vec![Config { name: "bu-pure", quick: 60_000, thorough: 2_000_000 }, Config { name: "bu-allroots", quick: 60_000, thorough: 2_000_000 }],
+    }, tier),
+    "C04" => run_check(&BuildEngine, &CheckSpec {
+      prop: "C04",
+      rule: "bottom-up mixes",
+      assumptions: vec!["from-scratch model (Clean) is correct"],
+      configs: vec![Config { name: "bu-pure", quick: 60_000, thorough: 2_000_000 }, Config { name: "bu-allroots", quick: 60_000, thorough: 2_000_000 }],
+    }, tier),
+    "C17" => run_check(&BuildEngine, &CheckSpec {
+      prop: "C17",
+      rule: "tracker stream",
+      assumptions: vec!["task-side and checker-side logs are the ground truth"],
+      configs: vec![Config { name: "td", quick: 60_000, thorough: 2_000_000 }, Config { name: "bu-pure", quick: 60_000, thorough: 2_000_000 }],
+    }, tier),
     _ => { eprintln!("no check for property {prop}"); 2 }
   }
 }
 
 pub fn list() {
   for p in ["C10", "C11"] { println!("{p}"); }
+}
+
+pub fn configs_of(prop: &str) -> Vec<&'static str> {
+  match prop {
+    "C01" => vec!["td"],
+    "C02" => vec!["td", "td-exact"],
+    "C03" | "C04" => vec!["bu-pure", "bu-allroots"],
+    "C10" | "C11" => vec!["short", "long"],
+    "C17" => vec!["td", "bu-pure"],
+    _ => vec![],
+  }
 }
